@@ -31,7 +31,7 @@ def run_lines(inst, rng_sched, frames):
     if frames > f:
         lines.append('gb.frames %d %d' % (inst, frames - f))
     lines += ['gb.obs %d' % inst, 'gb.pix %d' % inst, 'gb.audio %d' % inst, 'gb.serial %d' % inst, 'gb.dump %d' % inst,
-              'gb.rr %d 49152 49407' % inst, 'gb.rr %d 65408 65535' % inst]
+              'gb.rr %d 49152 49407' % inst, 'gb.rr %d 65408 65535' % inst, 'gb.rr %d 65328 65343' % inst]
     return lines
 
 
@@ -85,6 +85,14 @@ def generate(rng, tier):
                           'gb.w %d %d %d' % (inst, r2.choice([0xff14, 0xff19, 0xff1e, 0xff23, 0xff25, 0xff24]), r2.randrange(256))]
             lines += ['gb.obs %d' % inst]
         cases.append(('sound%d' % i, lines))
+    # successive machines of one process loaded from the same path with different contents
+    for i in range(2 if tier == 'quick' else 10):
+        kinds = rng.sample([(0, 0, 0), (19, 0, 3), (3, 0, 2), (27, 1, 3), (6, 0, 0), (16, 1, 3)], 3)
+        lines = []
+        for inst, (typ, romc, ramc) in enumerate(kinds):
+            lines += ['gb.newsame %d %d %d %d' % (inst, typ, romc, ramc), 'gb.w %d 0 10' % inst, 'gb.w %d 40960 %d' % (inst, 17 * inst + 1),
+                      'gb.frames %d 1' % inst, 'gb.obs %d' % inst, 'gb.dump %d' % inst, 'gb.r %d 40960' % inst, 'gb.rr %d 65328 65343' % inst]
+        cases.append(('reuse_path%d' % i, lines))
     # a machine that was shut down (Run returned, outputs released) leaves nothing behind for the next one
     for i in range(2 if tier == 'quick' else 8):
         import random as _r
@@ -116,7 +124,7 @@ def extra(check, ci, cm, cases):
     viol = []
     # in-process: the two instances of every case must agree line by line
     for cid, lines in cases:
-        if cid.startswith('reuse'):
+        if cid.startswith('reuse'):   # also 'reuse_path'
             continue                      # not a pair of identical runs
         o = ci.get(cid) or []
         h = len(o) // 2
